@@ -158,6 +158,11 @@ fn parse_ifdata_item(
             let mut seqitems = Vec::new();
             let mut checkpoint = parser.get_tokenpos();
             while let Ok(item) = parse_ifdata_item(parser, context, seqspec) {
+                // an item that does not consume any input (e.g. an empty array or an empty taggedstruct)
+                // would be repeated forever
+                if parser.get_tokenpos() == checkpoint {
+                    break;
+                }
                 seqitems.push(item);
                 checkpoint = parser.get_tokenpos();
             }
